@@ -144,7 +144,7 @@ def real_lexicon(rng, variant, want_pair=None, max_tags=8):
     binary, _ = grammars.real_grammar(lang)
     utab = grammars.shipped('unary_rules', variant)
     x, y = want_pair if want_pair else rng.choice(pairs)
-    inv = [x, y]
+    inv = list(dict.fromkeys([x, y]))
     frontier = [str(r.cat) for r in binary(Category.parse(x), Category.parse(y))]
     for _ in range(rng.randint(1, 4)):
         if not frontier or len(inv) >= max_tags:
@@ -180,7 +180,14 @@ def real_lexicon(rng, variant, want_pair=None, max_tags=8):
         if t not in inv:
             inv.append(t)
     rng.shuffle(inv)
-    return inv
+    # `run` requires pairwise different categories: drop texts that denote the same value
+    seen_values, out = set(), []
+    for c in inv:
+        v = Category.parse(c)
+        if v not in seen_values:
+            seen_values.add(v)
+            out.append(c)
+    return out
 
 
 def real_grammar_spec(rng, variant, want_pair=None, seen=None, roots_mode=None):
